@@ -110,7 +110,7 @@ def apply_fault(b, fault, rnd):
         extra = scenario.noise_packets(99, fault["noise"])
         used = {p.ts for p in pkts}
         for e in extra:
-            j = rnd.randrange(len(pkts) + 1)
+            j = 0 if fault.get("at") == "front" else rnd.randrange(len(pkts) + 1)
             base = pkts[j - 1].ts if j else pkts[0].ts - 10
             t = base + 1
             while t in used:
@@ -402,6 +402,32 @@ def key_update_victim_specs():
     return out
 
 
+def foreign_on_ports_specs():
+    """foreign UDP datagrams of every shape between OTHER hosts, on the port numbers the capture's connections use (each client port, each
+    server port, as source or destination), captured before everything else or in between: what a tool learns from them (roles, ports,
+    sessions) must not touch the connections"""
+    data = lambda d, n: {"op": "data", "d": d, "pk": [{"fr": [["stream", 0, n, None, False, True, None]], "gap": 0, "pnl": 0}]}
+    out = []
+    i = 0
+    for shapes in (["long"], ["short"], ["rand"], ["vn", "long_trunc", "tiny"]):
+        for side in ("sport", "cport"):
+            for which in (0, 1, 2):
+                for at in ("front", "anywhere"):
+                    victim = {"kind": "tls", "seed": 9800 + i, "version": tlsref.TLS12, "suite": 0xC02F, "history": [[0, 15, 0], [1, 32, 0]], "cert_len": 40,
+                              "ep": scenario.default_ep(0), "tcp": {"mode": "rec", "syn": bool(i % 2)}}
+                    by_t = {"kind": "tls", "seed": 9810 + i, "version": tlsref.TLS13, "suite": 0x1301, "history": [[0, 10, 0], [1, 20, 0]], "cert_len": 40,
+                            "ep": scenario.default_ep(1), "tcp": {"mode": "rec", "syn": not bool(i % 2)}}
+                    by_q = {"kind": "quic", "seed": 9820 + i, "suite": 0x1301, "steps": [data(0, 11), data(1, 21)], "ep": scenario.default_ep(2)}
+                    conns = [victim, by_t, by_q]
+                    tgt = conns[which]["ep"]
+                    nep = dict(scenario.default_ep(9), **{side: tgt["cport"] if (i // 2) % 2 == 0 else tgt["sport"]})
+                    out.append({"conns": conns, "order": [0, 1, 2], "tseed": 2 + i, "fseed": i,
+                                "fault": {"kind": "foreign", "at": at, "noise_port_of_conn": True,
+                                          "noise": {"kind": "noise", "what": "udp_struct", "seed": 50 + i, "n": 3, "ep": nep, "shapes": shapes}}})
+                    i += 1
+    return out
+
+
 def hello_specs(tier):
     out = []
     combos = [(0x002F, tlsref.TLS10), (0x009C, tlsref.TLS12), (0x1301, tlsref.TLS13), (0x000A, tlsref.SSL30)]
@@ -627,6 +653,7 @@ def stages(tier):
     return [
         Stage("all-positions", evaluate_positions, strategy=lambda t: base_scenario(small=True), examples=32 if quick else 600, shrink=False),
         Stage("key-update-victims-all-positions", evaluate_positions, specs=key_update_victim_specs(), chunksize=1),
+        Stage("foreign-datagrams-on-the-connections-port-numbers", evaluate_single, specs=foreign_on_ports_specs()),
         Stage("hello-bitflips", evaluate_hello_bits, specs=hello_specs(tier), chunksize=1),
         Stage("aborted-handshakes", evaluate_single, specs=aborted_handshake_specs()),
         Stage("loss-early-in-a-long-flow", evaluate_single, specs=long_victim_specs()),
